@@ -319,34 +319,6 @@ theorem C17_remove_resource_next_request (rs : List (Path × Res)) (ss : List (P
   · simp only [hr, ↓reduceIte, true_iff]
     exact ⟨lookup_eq_none_iff.mpr hr, fun s' h => by cases h⟩
 
-/-- the candidates of the prefix search other than `k` are the same with and without `k` -/
-theorem bestSplit_congr_of_not_prefix {ks ks' : List Path} {p k : Path} (hp : p ≠ [])
-    (hnp : ¬ ProperPrefix k p) (hsame : ∀ k', k' ≠ k → (k' ∈ ks' ↔ k' ∈ ks)) :
-    bestSplit ks' p (p.length - 1) = bestSplit ks p (p.length - 1) := by
-  have hpos : 0 < p.length := List.length_pos_iff.mpr hp
-  have hmem : ∀ j, j ≤ p.length - 1 → (p.take j ∈ ks' ↔ p.take j ∈ ks) := by
-    intro j hj
-    exact hsame _ (fun e => hnp (e ▸ properPrefix_take (by omega)))
-  cases hb : bestSplit ks p (p.length - 1) with
-  | none =>
-    apply bestSplit_none_of_no_prefix hp
-    intro k' hk' hpre'
-    obtain ⟨h1, h3⟩ := hpre'.eq_take
-    have := (hmem k'.length h3).mp (h1 ▸ hk')
-    exact bestSplit_none hb _ h3 this
-  | some j =>
-    obtain ⟨b, c, d⟩ := bestSplit_some hb
-    have := bestSplit_of_longest (ks := ks') (p := p) (k := p.take j)
-      ((hmem j b).mpr c) (properPrefix_take (by omega)) (by
-        intro k' hk' hpre'
-        obtain ⟨h1, h3⟩ := hpre'.eq_take
-        simp only [List.length_take]
-        by_cases hlt : j < k'.length
-        · exact absurd ((hmem k'.length h3).mp (h1 ▸ hk')) (d _ hlt h3)
-        · omega)
-    simp only [List.length_take] at this
-    rw [this]; congr; omega
-
 /-- **C17 (nested site added / replaced).** Right after `add_resource(k, t)` with a
 `PathCapable` `t`, every request that has no exact resource, has `k` as proper prefix and no
 longer registered prefix goes to `t` with the remaining components; requests of which `k` is not
@@ -809,10 +781,6 @@ theorem linkMatches_iff (k v : Str) (l : Link) : linkMatches k v l = true ↔ Ma
       · rintro ⟨val, hv, hmatch⟩; exact ⟨val, mem_attributeValues.mp hv, hmatch⟩
       · rintro ⟨val, hv, hmatch⟩; exact ⟨val, mem_attributeValues.mpr hv, hmatch⟩
 
-/-- what `render_get` filters: the generator's links plus the optional impl-info link -/
-def wkcAll (links : List Link) (implInfo : Option Str) : List Link :=
-  links ++ (match implInfo with | some u => [implInfoLink u] | none => [])
-
 /-- how a query item is read: `k=v` split at the first `=`, items without `=` are no filters -/
 theorem C17_filter_query_parse (q k v : Str) :
     (splitEq q = some (k, v) ↔ q = k ++ 61 :: v ∧ 61 ∉ k) ∧ (splitEq q = none ↔ 61 ∉ q) := by
@@ -822,11 +790,6 @@ theorem C17_filter_query_parse (q k v : Str) :
   | some kv =>
     obtain ⟨h1, _⟩ := splitEq_some (k := kv.1) (v := kv.2) hs
     exact absurd (h1 ▸ by simp) h
-
-theorem wkcRender_eq (links : List Link) (implInfo : Option Str) (queries : List Str) :
-    wkcRender links implInfo queries =
-      applyFilters (queries.filterMap splitEq) (wkcAll links implInfo) := by
-  cases implInfo <;> rfl
 
 /-- **C17 (several filters = conjunction).** With any number of filter arguments in the query
 (`?rt=temp&if=sensor`, repeated names included; items without `=` are ignored),
@@ -857,14 +820,11 @@ theorem C17_wkc_filters_mem (links : List Link) (implInfo : Option Str) (queries
 
 /-- **C17 (filters are applied one after the other).** Filtering by the arguments `f :: fs` is
 filtering the answer for `fs` by `f`: adding an argument can only remove links, and removes
-exactly those not matching it. -/
+exactly those not matching it (RFC 6690 §4.1 match of that argument's own name and pattern). -/
 theorem C17_wkc_filters_successive (links : List Link) (implInfo : Option Str) (k v : Str)
-    (fs : List (Str × Str)) :
-    applyFilters ((k, v) :: fs) (wkcAll links implInfo) =
-      (applyFilters fs (wkcAll links implInfo)).filter (linkMatches k v) ∧
-    ∀ l, l ∈ applyFilters ((k, v) :: fs) (wkcAll links implInfo) ↔
+    (fs : List (Str × Str)) (l : Link) :
+    l ∈ applyFilters ((k, v) :: fs) (wkcAll links implInfo) ↔
       l ∈ applyFilters fs (wkcAll links implInfo) ∧ Matches k v l := by
-  refine ⟨rfl, fun l => ?_⟩
   rw [applyFilters_cons, List.mem_filter, linkMatches_iff]
 
 /-- the order of the filter arguments (and repeating one) does not matter -/
